@@ -149,7 +149,7 @@ def run_property(pid: str, checker: Callable[[Ctx], None], meta: dict, tier: str
     out = out or sys.stdout
     model = Model(repo)
     an = Analysis(model)
-    reflection_census(model)
+    reflection_census(model, getattr(checker, "__globals__", {}).get("TOLERATED_REFLECTION"))
     ctx = Ctx(pid, an, tier)
     checker(ctx)
     if not ctx.obligations:
@@ -241,7 +241,7 @@ def run_property(pid: str, checker: Callable[[Ctx], None], meta: dict, tier: str
 FLOORS = {"modules": 20, "classes": 40, "functions": 180, "call_sites": 650}
 
 
-def reflection_census(model: Model):
+def reflection_census(model: Model, tolerate=None):
     st = model.stats()
     for k, floor in FLOORS.items():
         if st[k] < floor:
@@ -258,6 +258,8 @@ def reflection_census(model: Model):
                     raise AnalysisError("setattr() at %s:%d is not modelled (object.__setattr__ is)" % (m.relpath, n.lineno))
                 if name == "getattr":
                     if not (len(n.args) >= 2 and isinstance(n.args[1], ast.Constant)):
+                        if tolerate is not None and tolerate(model, n):
+                            continue        # the property's own rule reports this construct
                         raise AnalysisError("getattr() with a computed name at %s:%d is not modelled" % (m.relpath, n.lineno))
                     allowed_getattr += 1
                 if name == "type" and len(n.args) == 3:
